@@ -105,11 +105,14 @@ example : stdL (diff exS true exA exB) = true := by decide +kernel
 example : wfForest exS exA = true ∧ wfForest exS exB = true := by decide +kernel
 example : exactDiff exS exA (diff exS true exA exB) = true := diff_exact exS exA exB (by decide +kernel) (by decide +kernel)
 
-/-- … and unconditionally for every computed diff of well-formed trees -/
-theorem reverse_involutive_diff {S : Schema} {A B : List DNode} (hA : wfForest S A = true) (hB : wfForest S B = true)
-    (hstd : stdL (diff S true A B) = true) :
+/-- `reverse_involutive` for every computed diff of well-formed trees, unconditionally: `diff(A, B)` is exact (`diff_exact`)
+and has the metadata layout `lyd_diff_add` writes (`stdL_diff`). -/
+theorem reverse_involutive_diff {S : Schema} {A B : List DNode} (hA : wfForest S A = true) (hB : wfForest S B = true) :
     ∃ R, reverse S (diff S true A B) = .ok R ∧ reverse S R = .ok (revDupL (diff S true A B)) :=
-  reverse_reverse (diff_exact S A B hA hB) hstd
+  reverse_reverse (diff_exact S A B hA hB) (stdL_diff S A B hA hB)
+
+example : ∃ R, reverse exS (diff exS true exA exB) = .ok R ∧ reverse exS R = .ok (revDupL (diff exS true exA exB)) :=
+  reverse_involutive_diff (by decide +kernel) (by decide +kernel)
 
 /-- `reverse_apply` is false as written for user-ordered leaf-lists (finding F15(a)): the reversed moves keep their forward
 order.  A = `0 1 2`, B = `1 2 0`: the result is `0 2 1`. -/
